@@ -6,6 +6,8 @@ import (
 	"math/rand"
 	"strconv"
 	"strings"
+
+	"verifharness/globref"
 )
 
 // ---------------------------------------------------------------- value order
@@ -437,6 +439,7 @@ func (w *worker) fieldDataset(idx int) {
 		ci      int
 		filt    []filter
 		toks    []string
+		match   string
 		exp     []string
 		limit   string
 		limited bool
@@ -457,6 +460,11 @@ func (w *worker) fieldDataset(idx int) {
 			fs = nil // no filter at all: the COUNT shortcuts
 		}
 		var toks []string
+		match := ""
+		if k%3 == 1 || k == nf-1 {
+			match = pick(r, []string{"*", "a*", "ab*", "[ab]*", "*1", "b*", "?pp*", "c??", "*"})
+			toks = append(toks, "MATCH", match)
+		}
 		for _, f := range fs {
 			toks = append(toks, f.toks...)
 		}
@@ -464,6 +472,15 @@ func (w *worker) fieldDataset(idx int) {
 			exp := []string{}
 			for _, id := range base[ci] {
 				keep := true
+				if match != "" {
+					subject := id
+					if c.name == "SEARCH" {
+						subject = d.byID[id].val // SEARCH matches the values
+					}
+					if ok, err := globref.Match(match, subject); err != nil || !ok {
+						keep = false
+					}
+				}
 				for _, f := range fs {
 					if !f.pred(d.byID[id]) {
 						keep = false
@@ -474,7 +491,7 @@ func (w *worker) fieldDataset(idx int) {
 					exp = append(exp, id)
 				}
 			}
-			fc := fcase{ci: ci, filt: fs, toks: toks, exp: exp, limit: big}
+			fc := fcase{ci: ci, filt: fs, toks: toks, match: match, exp: exp, limit: big}
 			fc.iIDS = len(pipeline)
 			pipeline = append(pipeline, c.build(big, toks, "IDS"))
 			fc.iCount = len(pipeline)
@@ -483,7 +500,7 @@ func (w *worker) fieldDataset(idx int) {
 			// the same under a LIMIT smaller than the result
 			if len(exp) >= 2 && r.Intn(2) == 0 {
 				l := 1 + r.Intn(len(exp)-1)
-				lc := fcase{ci: ci, filt: fs, toks: toks, exp: exp[:l], limit: strconv.Itoa(l), limited: true}
+				lc := fcase{ci: ci, filt: fs, toks: toks, match: match, exp: exp[:l], limit: strconv.Itoa(l), limited: true}
 				lc.iIDS = len(pipeline)
 				pipeline = append(pipeline, c.build(lc.limit, toks, "IDS"))
 				lc.iCount = len(pipeline)
@@ -512,6 +529,10 @@ func (w *worker) fieldDataset(idx int) {
 		c := cmds[fc.ci]
 		kinds := []string{}
 		shapes := []string{}
+		if fc.match != "" {
+			kinds = append(kinds, "match")
+			shapes = append(shapes, "match:"+globref.Shape(fc.match))
+		}
 		for _, f := range fc.filt {
 			kinds = append(kinds, f.kind)
 			shapes = append(shapes, f.shape)
@@ -534,7 +555,7 @@ func (w *worker) fieldDataset(idx int) {
 			}
 			continue
 		}
-		if !fc.limited && len(fc.filt) > 0 && len(fc.exp) > 0 && len(fc.exp) < len(base[fc.ci]) {
+		if !fc.limited && (len(fc.filt) > 0 || fc.match != "") && len(fc.exp) > 0 && len(fc.exp) < len(base[fc.ci]) {
 			ctx.Distinct(strings.Join(shapes, "&") + "|" + c.label())
 			ctx.Count("field_nontrivial", 1)
 			if idx == 1 && fc.ci == 0 && fc.iIDS < 120 {
@@ -566,10 +587,11 @@ func (w *worker) fieldDataset(idx int) {
 					hasWhere = true
 				}
 			}
+			everything := fc.match == "" || fc.match == "*"
 			switch {
-			case c.name == "SEARCH" && !hasWhere:
+			case c.name == "SEARCH" && !hasWhere && everything:
 				key = "count:search-shortcut"
-			case c.name == "SCAN" && len(fc.filt) == 0 && fc.limited:
+			case c.name == "SCAN" && len(fc.filt) == 0 && everything && fc.limited:
 				key = "count:scan-shortcut-ignores-limit"
 			}
 			w.violation(key, fmt.Sprintf("%s replies %s but %s lists %d ids", q(cntCmd), cr.String(), q(idsCmd), len(got)),
